@@ -51,7 +51,7 @@ public:
     };
     static inline bool isOne(Element &result)
     {
-        return Goldilocks::isOne(result[0]) && Goldilocks::isOne(result[0]) && Goldilocks::isOne(result[0]);
+        return Goldilocks::isOne(result[0]) && Goldilocks::isZero(result[1]) && Goldilocks::isZero(result[2]);
     };
 
     static void copy(Element &dst, const Element &src)
